@@ -108,7 +108,11 @@ func serialise(b *strings.Builder, v starlark.Value, depth int) {
 			a, _ := x.Attr(n)
 			b.WriteString(n)
 			b.WriteByte('=')
-			serialise(b, a, depth+1)
+			if a == nil {
+				b.WriteString("<listed by AttrNames but Attr finds nothing>")
+			} else {
+				serialise(b, a, depth+1)
+			}
 			b.WriteByte(',')
 		}
 		b.WriteByte('>')
@@ -186,9 +190,11 @@ func childMain(args []string) {
 	w := bufio.NewWriterSize(os.Stdout, 1<<20)
 	defer w.Flush()
 	enc := json.NewEncoder(w)
+	seqT := map[int64]string{}
 	for i := *lo; i < *hi; i++ {
 		p := genProgram(*seed, i)
 		t := transcript(p)
+		seqT[i] = t
 		rec := map[string]any{"kind": "t", "i": i, "h": digest(t)}
 		if *full {
 			rec["t"] = t
@@ -217,7 +223,7 @@ func childMain(args []string) {
 					i := *lo + (j*int64(*g)+int64(k)*7)%n
 					p := genProgram(*seed, i)
 					t := transcript(p)
-					ref := transcript(p)
+					ref := seqT[i] // the sequential run of this process (read-only here)
 					if t != ref {
 						mu.Lock()
 						enc.Encode(map[string]any{"kind": "diverge", "where": "goroutines", "i": i, "a": ref, "b": t})
@@ -353,17 +359,6 @@ func runMain(args []string) {
 	}
 	for _, d := range results[0].div {
 		report(d["where"].(string), int64(d["i"].(float64)), d["a"].(string), d["b"].(string))
-	}
-	// goroutine runs against the sequential hash
-	for i, hs := range results[0].ghash {
-		for _, h := range hs {
-			if h != results[0].hashes[i] {
-				// re-run to obtain transcripts
-				p := genProgram(*seed, i)
-				report("goroutines", i, transcript(p), "(transcript digest "+h+" differed on a concurrent goroutine)")
-				break
-			}
-		}
 	}
 	// across processes
 	var idx []int64
